@@ -8,6 +8,9 @@
 (* for the whole rule).  Values are tagged tuples:                          *)
 (*   <<"s", text>>  <<"n">> (None)  <<"b", bool>>  <<"l", <<items>>>>        *)
 (*   <<"tc", T, v>> terminal action   <<"o", X, kw, s, e>> default object    *)
+(*   <<"i", 0>>  an integer (constant actions: a user action that returns a   *)
+(*   falsy value 0 / False / '' / [] whatever its arguments are -- such a     *)
+(*   value is a matched element like any other, only None means "no match")  *)
 (* The documented meaning of the default (no action: single child unpacked, *)
 (* otherwise the list of children) and of the built-in actions behind       *)
 (* + * ? and separators is defined here, independently of actions.py.       *)
@@ -15,14 +18,17 @@
 (* Parameters (records, supplied by the case):                              *)
 (*   P      productions, P[p+1] = [lhs, rhs]                                *)
 (*   akind  rule name -> "none" | "single" | "list" | "obj" | "collect" |   *)
-(*          "collect_sep" | "optional" | "zero"                             *)
+(*          "collect_sep" | "optional" | "zero" | "k0" | "kF" | "kS" | "kL" *)
+(*          (constant actions; also allowed for TERMINAL names)             *)
 (*   assign p+1 -> sequence of [name, op, idx] sorted by name (idx 1-based) *)
 (*   tact   set of terminals that have a (recording) action                 *)
 (***************************************************************************)
 EXTENDS Naturals, Sequences, FiniteSets
 
 AltOf(P, p) == Cardinality({ q \in 1..p : P[q].lhs = P[p+1].lhs })   \* zero-based index among the rule's alternatives
-Truthy(v) == ~(v = <<"n">> \/ v = <<"l", <<>>>> \/ v = <<"s", "">> \/ v = <<"b", FALSE>>)
+Truthy(v) == ~(v = <<"n">> \/ v = <<"l", <<>>>> \/ v = <<"s", "">> \/ v = <<"b", FALSE>> \/ v = <<"i", 0>>)
+ConstKinds == {"k0", "kF", "kS", "kL"}
+Const(kind) == CASE kind = "k0" -> <<"i", 0>> [] kind = "kF" -> <<"b", FALSE>> [] kind = "kS" -> <<"s", "">> [] OTHER -> <<"l", <<>>>>
 KW(assign, p, sub) ==
   [ k \in DOMAIN assign[p+1] |->
       LET a == assign[p+1][k] IN <<a.name, IF a.op = "=" THEN sub[a.idx] ELSE <<"b", Truthy(sub[a.idx])>>>> ]
@@ -31,12 +37,14 @@ SpanE(n) == IF n.s = n.e THEN 0 - 1 ELSE n.e
 
 RECURSIVE Eval(_, _, _, _, _)
 Eval(P, akind, assign, tact, n) ==
-  IF n.k = "T" THEN (IF n.t \in tact THEN <<"tc", n.t, <<"s", n.vs>>>> ELSE <<"s", n.vs>>)
+  IF n.k = "T" THEN (IF n.t \in DOMAIN akind /\ akind[n.t] \in ConstKinds THEN Const(akind[n.t])
+                     ELSE IF n.t \in tact THEN <<"tc", n.t, <<"s", n.vs>>>> ELSE <<"s", n.vs>>)
   ELSE LET X == P[n.p+1].lhs
            sub == [ i \in DOMAIN n.c |-> Eval(P, akind, assign, tact, n.c[i]) ]
            alt == AltOf(P, n.p)
            kind == akind[X]
-       IN CASE kind = "none"    -> IF Len(sub) = 1 THEN sub[1] ELSE <<"l", sub>>
+       IN CASE kind \in ConstKinds -> Const(kind)
+            [] kind = "none"    -> IF Len(sub) = 1 THEN sub[1] ELSE <<"l", sub>>
             [] kind = "single"  -> <<"c", X, 0 - 1, <<"l", sub>>, KW(assign, n.p, sub), SpanS(n), SpanE(n)>>
             [] kind = "list"    -> <<"c", X, alt, <<"l", sub>>, KW(assign, n.p, sub), SpanS(n), SpanE(n)>>
             [] kind = "obj"     -> <<"o", X, KW(assign, n.p, sub), SpanS(n), SpanE(n)>>
